@@ -75,8 +75,8 @@ CHECKS = {
    note="Trusted: the reference functions in harness/src/c07.rs (std and regex crate). Not judged (undocumented): case-insensitive matches cutting through the lower-case expansion of one codepoint, sequence searches where greedy and backtracking readings differ, the position of an empty trim result.",
    ref="5/C07"),
  "C08": dict(
-   technique="runtime monitoring: metamorphic oracles over the same store (all constraint orders, conjunction = intersection of single-constraint answers, disjunction = duplicate-free union, LIMIT = slice, sub-query = nested iteration with bound variables, text form = built form), scan of the shadow model for unambiguous constraints, twin-store differential for ADD/DELETE against direct calls, unit monitors of Handles and LimitIter against std collections, and a support matrix that turns a previously answered constraint position into a violation when it starts to be refused",
-   text="On stores reached by seeded histories, queries of 1-3 constraints drawn from what exists in the store (and absent ids) over the six result types are evaluated in every order, alone, as a union, with LIMIT windows in [-len-2, len+2], as printed text, and as outer{inner} sub-queries (OPTIONAL 1 in 3) against nested iteration with with_*var bindings; ADD and DELETE queries are compared with annotate()/remove() calls on a twin built by replaying the same history. Held on what was observed; one finding (OPTIONAL) is recorded.",
+   technique="runtime monitoring: metamorphic oracles over the same store (all constraint orders, conjunction = intersection of single-constraint answers, disjunction = duplicate-free union, LIMIT = slice, sub-query = nested iteration with bound variables, text form = built form, single-constraint query = the documented iterator-API expression or an item-level scan over 57 result-type x constraint cells), scan of the shadow model for unambiguous constraints, twin-store differential for ADD/DELETE against direct calls, unit monitors of Handles and LimitIter against std collections, and a support matrix that turns a previously answered constraint position into a violation when it starts to be refused",
+   text="On stores reached by seeded histories, queries of 1-3 constraints drawn from what exists in the store (and absent ids) over the six result types are evaluated in every order, alone, as a union, with LIMIT windows in [-len-2, len+2], as printed text, through the iterator API (resource.annotations(), annotation.data(), dataset.keys(), store.annotations().filter(..data()..) and so on), and as outer{inner} sub-queries (OPTIONAL 1 in 3) against nested iteration with with_*var bindings; ADD and DELETE queries are compared with annotate()/remove() calls on a twin built by replaying the same history. Held on what was observed; one finding (OPTIONAL) is recorded.",
    note="Trusted: the nested-iteration and slice references in harness/src/c08.rs and the shadow model for ID / DATA key / DATA key op value. Constraint positions the evaluator reports as not implemented are counted, not compared; the committed support matrix (harness/data/c08-support.json) guards against a supported position becoming unsupported. LIMIT with negative begin and positive end is not judged.",
    ref="5/C08"),
  "C09": dict(
